@@ -19,6 +19,9 @@ Oracle: iterating FlowReader(BytesIO(data)).stream() yields Flow objects and end
 """
 import io
 import json
+import os
+import re
+import tempfile
 
 from hypothesis import strategies as st
 
@@ -39,7 +42,7 @@ RULE = ("A: files of 1-5 generated flows of mixed types; non-trivial = a flow wi
         "mutation kind x outcome")
 ASSUMPTIONS = ["flows are built through public constructors/attributes (flowgen.build), never through from_state",
                "timestamps are > 0 and not NaN; metadata restricted to None/bool/int/float/str/bytes/list/dict[str,...]",
-               "reader fed from io.BytesIO (a real file differs only in read() allocation behaviour)"]
+               "reader fed from io.BytesIO; inputs with a >= 10**11 length prefix are additionally read through a real file"]
 LEVEL_TEXT = ("exploration: randomised search over flow states of all five kinds and over mutated file contents; "
               "no exhaustiveness claim")
 LEVEL_NOTE = "trusts flowgen.build/observe (harness) and Python's float repr round trip"
@@ -248,6 +251,11 @@ def mutate_bytes(data, ops):
     return bytes(data)
 
 
+_HUGE = re.compile(rb"(?<![0-9])[1-9][0-9]{11}:")      # a length prefix >= 10**11: allocation fails at once, nothing is mapped
+_RISKY = re.compile(rb"(?<![0-9])0*[1-9][0-9]{7,10}:")             # 10 MB .. 100 GB prefixes are never fed to a real file (would allocate)
+_TMP = "/dev/shm" if os.path.isdir("/dev/shm") and os.access("/dev/shm", os.W_OK) else "/var/tmp"
+
+
 def check_reader(data, ctx, label):
     n = 0
     outcome = "ok"
@@ -262,6 +270,26 @@ def check_reader(data, ctx, label):
         outcome = "other-exc"
         ctx.fail("reader-not-total:%s@%s" % (type(e).__name__, repo_frame(e)), "%s: %r on %d bytes %r..." % (label, e, len(data), data[:80]))
     ctx.nt(data, "B:%s:%s%s" % (label, outcome, ":flows" if n else ""))
+    if _HUGE.search(data) and not _RISKY.search(data):
+        # the same bytes through a real (buffered) file object, as ReadFile / read_flows_from_paths use it:
+        # BufferedReader.read(n) allocates n bytes up front, BytesIO.read(n) does not
+        fd, path = tempfile.mkstemp(prefix="c36-", dir=_TMP)
+        try:
+            with os.fdopen(fd, "wb") as fh:
+                fh.write(data)
+            with open(path, "rb") as fh:
+                try:
+                    for f in FlowReader(fh).stream():
+                        pass
+                    ctx.cls("B:realfile:ok")
+                except exceptions.FlowReadException:
+                    ctx.cls("B:realfile:flowreadexc")
+                except Exception as e:
+                    ctx.cls("B:realfile:other-exc")
+                    ctx.fail("reader-not-total:%s@%s:real-file" % (type(e).__name__, repo_frame(e)),
+                             "%s via open(): %r on %d bytes %r..." % (label, e, len(data), data[:80]))
+        finally:
+            os.unlink(path)
 
 
 _WRONG = st.one_of(st.none(), st.booleans(), st.integers(-2, 30), st.sampled_from([2 ** 64, -2 ** 70, 1.5, float("inf")]),
